@@ -330,7 +330,7 @@ class Endpoint:
         Function stops when there's a conflict that can't be resolved or all parameters are guaranteed to have a
         unique python_name.
         """
-        modified_params = previously_modified_params or set()
+        modified_params = set(previously_modified_params) if previously_modified_params else set()
         used_python_names: dict[PythonIdentifier, tuple[oai.ParameterLocation, Property]] = {}
         reserved_names = ["client", "url"]
         for parameter in self.iter_all_parameters():
